@@ -113,4 +113,20 @@ theorem tie_boot_server_order : C19.bootServerOrder =
      "WaitForCacheSync", "WaitForCacheSync", "WaitForCacheSync", "WaitForCacheSync", "sched.WaitForHandlersSync",
      "frameworkexthelper.WaitForHandlersSync", "frameworkexthelper.RunAfterAllInformersSynced"] := by decide
 
+/-- ext5: nodenumaresource preBindObject hands the object to the writers only (appendResourceSpecIfMissed fills the
+    resource SPEC in, SetResourceStatus overwrites the resource STATUS); it never reads what the object carries, so the
+    written status depends on the cycle's allocation alone (Model/C19PreBind.lean `preBind`,
+    theorem prebind_writes_current_allocation) -/
+theorem tie_numa_prebind_object_uses :
+    C19.numaPreBindObjectUses = ["appendResourceSpecIfMissed", "SetResourceStatus"] := by decide
+
+/-- ext5: deviceshare preBindObject writes the device-allocated annotation BEFORE the device-plugin adaption and does
+    not read the object (Model/C19PreBind.lean `DevPB.preBind`) -/
+theorem tie_dev_prebind_order :
+    C19.devPreBindObjectUses = ["SetDeviceAllocations", "adaptForDevicePlugin"] := by decide
+
+/-- ext5: no Adapt method of device_plugin_adapter.go assigns through its allocation parameter: the adapters are
+    functions of the allocation (hypothesis of dev_prebind_persists_reserved_allocation) -/
+theorem tie_dev_adapters_read_only : C19.devAdaptersWriteAllocation = [] ∧ C19.devAdaptersCount = 5 := by decide
+
 end KoordVerif.C19
